@@ -10,5 +10,5 @@ META = {
 
 def run(ctx):
     durcommon.exhaustive(ctx, "C20")
-    durcommon.run_file(ctx, "dump", 10 if ctx.thorough() else 4, 0, "C20")
+    durcommon.run_file(ctx, "dump", 40 if ctx.thorough() else 4, 0, "C20")
     ctx.assumptions += durcommon.ASSUME
